@@ -291,12 +291,13 @@ def replay(ctx, payload):
         print(payload)
         return 0
     fkind = payload.get("fkind", "MODULE")
+    import re
+    import textwrap
     body = G.MODULE_HEADER
     if fkind == "MODULE":
-        body += src
+        body += textwrap.dedent(src)
     else:
-        body += "class C:\n" + "".join("    " + l + "\n" if not l.startswith("    ") else l + "\n"
-                                         for l in src.splitlines())
+        body += "class C:\n" + textwrap.indent(textwrap.dedent(src), "    ")
     with open(os.path.join(ctx.work, "c13replay.py"), "w") as f:
         f.write(body)
     saved = stubs.cached_property
@@ -307,8 +308,14 @@ def replay(ctx, payload):
         name = [l for l in src.splitlines() if l.strip().startswith("def ")][0].split("def ")[1].split("(")[0]
         sp = G.FnSpec(name, fkind, [], None, 0)
         func = G.live_function(mod, sp)
-        ev = lambda s: None if s == "None" else eval(s.replace("<class '", "").replace("'>", "").replace("c13fx_0.", "")
-                                                      .replace("NoneType", "type(None)"), dict(ns))
+        ns["typing"] = __import__("typing")
+
+        def ev(txt):
+            if txt == "None":
+                return None
+            txt = re.sub(r"<class '(?:\w+\.)*(\w+)'>", r"\1", txt)
+            txt = re.sub(r"\bc13\w+\.", "", txt).replace("NoneType", "type(None)")
+            return eval(txt, dict(ns))
         traces = [CallTrace(func, {k: ev(v) for k, v in t["args"].items()}, ev(t["return"]), ev(t["yield"]))
                   for t in payload.get("traces", [])]
         ct = common.ClassTable()
@@ -320,11 +327,19 @@ def replay(ctx, payload):
         tt = G.coq_list(G.reify_trace(t, ct) for t in traces)
         term = G.case_term(strat, members[strat].value, None, rec["kind"] or fkind, rec["sig"], 0, tt, rec["shrunk"],
                            rec["out"], rec["rendered"], rec["env"], rec["raised"] is not None, False)
-        outs = common.run_coq_shards(ctx.work, "c13replay", HEADER, [term], "ucase",
-                                     "(map verdict_c13 cases, map (fun c => option_map (update_sig (u_strat c) (u_kind c) (u_sig c)) (collect (u_k c) (u_traces c))) cases)")
+        outs = common.run_coq_shards(ctx.work, "c13replay", HEADER, [term], "ucase", "bad verdict_c13 0 cases")
+        bad = common.parse_bad(outs)
+        mpath = os.path.join(ctx.work, "c13replay_model.v")
+        with open(mpath, "w") as f:
+            f.write(HEADER + f"Definition c : ucase := {term}.\n"
+                    "Eval vm_compute in (option_map (update_sig (u_strat c) (u_kind c) (u_sig c)) "
+                    "(collect (u_k c) (u_traces c))).\n")
+        _, mout = common.run_coqc(mpath)
         print("implementation stub:\n" + rec.get("stub", "") + ("\nraised: " + rec["raised"] if rec["raised"] else ""))
-        print("verdict (0 ok / 1 model differs / 2 property false / 3 malformed) and model output:\n" + outs[0][1])
-        return 0 if "[0]" in outs[0][1].replace(" ", "") else 1
+        print("model signature:\n" + mout.strip()[:3000])
+        code = bad[0][1] if bad else 0
+        print(f"verdict: {code}  (0 ok / 1 model differs / 2 property predicate false on the implementation's output / 3 malformed)")
+        return 0 if code == 0 else 1
     finally:
         stubs.cached_property = saved
         if ctx.work in sys.path:
